@@ -324,7 +324,7 @@ func (s *Session) start() error {
 	// The per-query limit is z3's deterministic resource counter (about 6.5 million units per
 	// second of an idle core here), not wall-clock time: the outcome of a query must not depend on
 	// how busy the machine is. The wall-clock limit is only a safety net.
-	cmd := exec.Command("z3-new", "-in", "-smt2", fmt.Sprintf("-t:%d", s.softMs*6))
+	cmd := exec.Command("z3-new", "-in", "-smt2", fmt.Sprintf("-t:%d", s.softMs*2+1000))
 	in, err := cmd.StdinPipe()
 	if err != nil {
 		return err
